@@ -35,7 +35,9 @@ def _read(name):
 
 
 # (name, source, expected output = Go's meaning, as bash prints it)
-DIRECTED = [("case-insensitive-names", _read("case-insensitive-names.tsh"), "1 2\n8\n7\n")]
+DIRECTED = [("case-insensitive-names", _read("case-insensitive-names.tsh"), "1 2\n8\n7\n", True),
+            # several length queries in one statement (round 6: C05-7, the Batch length register shared by all of them)
+            ("two-lengths", _read("two-lengths.tsh"), "2\na is longer\n2 30\n32\n3 2\n23\ni 0\n1 12\n", False)]
 
 
 def run(res, b, tier, seed):
@@ -88,8 +90,8 @@ def run(res, b, tier, seed):
         if base == 0:
             # directed programs (corpus/C05): identifiers that differ only in letter case (known finding batch-names-case-insensitive)
             flags = dict(panic_in_func=False, empty_substr=False, minint=False, switch_break=False, switch_break_static=False, switch_tag_call=False, range_call=False)
-            for name, src, exp in DIRECTED:
-                cases.append(pipeline.Case("d-" + name, {"main.tsh": src.encode()}, meta=dict(src=src, expected_out=exp, expected_status=0, case_clash=True, **flags)))
+            for name, src, exp, clash in DIRECTED:
+                cases.append(pipeline.Case("d-" + name, {"main.tsh": src.encode()}, meta=dict(src=src, expected_out=exp, expected_status=0, case_clash=clash, **flags)))
         pipeline.run_pipe(b, cases, "w")
         pipeline.model_batch(b, cases)
         for c in cases:
